@@ -14,7 +14,7 @@ git -C /repo worktree add -q --detach "$WT" HEAD || exit 3
 # bring over uncommitted add-only hook files (verif_export*.go) that agents may not have committed yet
 (cd /repo && git ls-files --others --exclude-standard | grep 'verif_export' | while read f; do mkdir -p "$WT/$(dirname $f)"; cp "$f" "$WT/$f"; done)
 git -C "$WT" apply "$PATCH" || { echo "patch does not apply"; exit 3; }
-rsync -a --exclude .git --exclude work --exclude replays --exclude evidence /verif/ "$VC"/
+rsync -a --exclude .git --exclude work --exclude replays --exclude evidence --exclude "bin/h_*" /verif/ "$VC"/
 cd "$VC" && VERIF_REPO="$WT" ./check "$PROP" --tier "$TIER"
 RC=$?
 echo "--- seedtest rc=$RC"
